@@ -16,6 +16,8 @@ use std::sync::Mutex;
 static DISCREPANCIES: AtomicU64 = AtomicU64::new(0);
 /// confirmed violations so far; exploration stops early once a handful is at hand
 static FOUND: AtomicU64 = AtomicU64::new(0);
+/// runs that exceeded the exploration tripwire but completed when run again
+static SLOW_RUNS: AtomicU64 = AtomicU64::new(0);
 
 // -------------------------------------------------------------------------------------------------
 // cases and their evaluation (used by campaigns, minimisation and replay alike)
@@ -472,6 +474,8 @@ struct Agg {
     server_runs: u64,
     server_fallbacks: u64,
     pipe_runs: u64,
+    max_run_ms: u64,
+    slowest: Option<(u64, String)>,
     violations: Vec<Found>,
     samples: Vec<Value>,
     log: Vec<String>,
@@ -491,6 +495,10 @@ fn account_run(agg: &mut Agg, wl_hash: u64, mode: &CliMode, env: &Env, out: &Run
     }
     if env.pipe {
         agg.pipe_runs += 1;
+    }
+    if out.wall_ms > agg.max_run_ms {
+        agg.max_run_ms = out.wall_ms;
+        agg.slowest = Some((wl_hash, format!("{:?}", mode.selection)));
     }
     if let Some(s) = &out.stats {
         for (k, v) in [s.getrandom, s.read, s.read_short, s.read_eintr, s.write, s.write_short, s.write_eintr].iter().enumerate() {
@@ -548,6 +556,10 @@ fn merge(into: &mut Agg, from: Agg) {
     into.not_judgeable += from.not_judgeable;
     into.server_runs += from.server_runs;
     into.pipe_runs += from.pipe_runs;
+    if from.max_run_ms > into.max_run_ms {
+        into.max_run_ms = from.max_run_ms;
+        into.slowest = from.slowest;
+    }
     into.server_fallbacks += from.server_fallbacks;
     into.violations.extend(from.violations);
     into.samples.extend(from.samples);
@@ -575,8 +587,13 @@ fn explore_workload(ctx: &Ctx, wd: &WorkDir, wd_oneshot: &WorkDir, prop: &str, i
         match evaluate(ctx, wd, kind, case, lkm) {
             Err((v, outs)) if outs.iter().any(|o| o.via_server) => match evaluate(ctx, wd_oneshot, kind, case, lkm) {
                 Ok(ev) => {
-                    DISCREPANCIES.fetch_add(1, Ordering::SeqCst);
-                    eprintln!("note: server-mode verdict {} of workload {index} did not reproduce in fresh processes", v.class);
+                    if v.class.contains("no_termination") {
+                        // the one verdict that rests on real time: the run was merely slow (3.6)
+                        SLOW_RUNS.fetch_add(1, Ordering::SeqCst);
+                    } else {
+                        DISCREPANCIES.fetch_add(1, Ordering::SeqCst);
+                        eprintln!("note: server-mode verdict {} of workload {index} did not reproduce in fresh processes", v.class);
+                    }
                     Ok(ev)
                 }
                 Err(e) => Err(e),
@@ -1008,7 +1025,8 @@ pub fn run_check(prop: &str, tier: &str, workloads_override: Option<u64>, dump: 
     extra.insert("runs_in_fresh_processes".into(), json!(total.runs - total.server_runs));
     extra.insert("server_mode_verdicts_not_confirmed_by_fresh_process".into(), json!(DISCREPANCIES.load(Ordering::SeqCst)));
     extra.insert("runs_that_took_the_server_down".into(), json!(total.server_fallbacks));
-    extra.insert("slow_runs_over_tripwire_that_completed_on_confirmation".into(), json!(slow_runs));
+    extra.insert("slow_runs_over_tripwire_that_completed_on_confirmation".into(), json!(slow_runs + SLOW_RUNS.load(Ordering::SeqCst)));
+    extra.insert("slowest_run_real_ms_diagnostic".into(), json!(total.max_run_ms));
     extra.insert("known_findings_seen".into(), json!(known_lines.iter().collect::<Vec<_>>()));
     extra.insert("components".into(), json!({
         "real": ["src/caller/src/main.rs (argument parsing, check selection, sorting, printing)", "all of cwe_checker_lib (lifting, normalisation, CFG, fixpoints, every check, utils/log.rs)", "goblin ELF parsing", "shipped config.json / lkm_config.json"],
